@@ -143,7 +143,8 @@ def pseudo_model(it, regs, pc, end, ctx):
             r[rd] = v & M32
 
     def lab(x):
-        return ctx.labels[x]
+        # (a constant as jump / call target is an absolute address)
+        return ctx.labels[x] if x in ctx.labels else ctx.consts[x]
 
     if name == 'nop':
         pass
